@@ -5,12 +5,13 @@ CONSTANTS
   Passive = {"p1"}
   InitTok = 1
   Amt = {1}
-  InitBal = 3
-  MaxH = 2
-  MaxTx = 2
-  MaxCoins = 2
-  Kinds = {"xfer", "dep", "wd", "cx", "call", "tok", "fwd", "sst", "pay"}
+  InitBal = 2
+  MaxH = 3
+  MaxTx = 3
+  MaxCoins = 0
+  Kinds = {"kill", "kfund"}
 INVARIANTS Conservation TokenConservation NoNegative SpentOnce SpentMarked
+PROPERTIES RejectedIsNoOp NonceCountsExecuted
 ACTION_CONSTRAINT Edge
 VIEW View
 CHECK_DEADLOCK FALSE
